@@ -1,6 +1,9 @@
 package verifh
 
 import (
+	"crypto/sha1"
+	"crypto/sha256"
+	"crypto/sha512"
 	"fmt"
 	"os"
 	"strings"
@@ -211,7 +214,25 @@ func drawBytes(t *rapid.T, n int, label string) []byte {
 		}
 		return b
 	}
-	switch rapid.IntRange(0, 11).Draw(t, label+"Fill") {
+	switch rapid.IntRange(0, 12).Draw(t, label+"Fill") {
+	case 12: // the digest of a weak or empty PIN (what a "reject weak passwords" screen would single out); for other
+		// lengths the leading bytes of the SHA-512 digest, padded with zeros
+		pin := rapid.SampledFrom([]string{"", "", "0", "1234", "0000", "000000", "123456", "password", "\x00"}).Draw(t, label+"Pin")
+		var d []byte
+		switch n {
+		case 20:
+			x := sha1.Sum([]byte(pin))
+			d = x[:]
+		case 32:
+			x := sha256.Sum256([]byte(pin))
+			d = x[:]
+		default:
+			x := sha512.Sum512([]byte(pin))
+			d = x[:]
+		}
+		b := make([]byte, n)
+		copy(b, d)
+		return b
 	case 0:
 		return make([]byte, n)
 	case 1:
